@@ -92,6 +92,20 @@ def check_cases(res, exe, drv, cases, stats, samples):
         if pl is None:
             stats['no_free_path'] += 1
             continue
+        # With a buffer distance the routing polygon of a sharp-cornered shape is a mitred offset that reaches far beyond the
+        # shape; an endpoint inside it is "contained" for the router (Router::contains) and the shape is ignored for that
+        # connector.  Such endpoints are outside the generated domain (endpoints in free space w.r.t. the routing polygons).
+        if c['buf'] > 0:
+            from fractions import Fraction as F
+            idsb = sorted(d['shapes'].keys())
+            zone = True
+            for (seg, shp, dg) in off:
+                B = [(F(x), F(y)) for x, y in d['bshapes'][idsb[shp]]]
+                if not (A.inside_strict(B, s) or A.inside_strict(B, t)):
+                    zone = False
+            if zone:
+                stats['endpoint_in_buffer_zone'] = stats.get('endpoint_in_buffer_zone', 0) + 1
+                continue
         # Classification on the raw route() (the visibility-graph edges the search used; displayRoute merges collinear
         # runs): known finding iff the raw route itself offends, and every offending raw segment is a degenerate chord of
         # the routing polygon (shape grown by the buffer distance) it crosses.
@@ -191,7 +205,7 @@ def run(tier):
         'samples': samples,
         'traces_validated_against_impl': stats['routes'] + stats['corpus'],
         'routes_by_config': stats['by_config'], 'bends_histogram': {str(k): v for k, v in sorted(stats['bends_hist'].items())},
-        'no_free_path_cases_skipped': stats['no_free_path'], 'libavoid_exceptions': stats['exceptions'],
+        'no_free_path_cases_skipped': stats['no_free_path'], 'endpoint_in_mitred_buffer_zone_skipped': stats.get('endpoint_in_buffer_zone', 0), 'libavoid_exceptions': stats['exceptions'],
         'known_degenerate_chord_cases': stats['known_degenerate_chord'], 'checker_failures_reported': stats['violations'],
         'corpus_cases': stats['corpus'], 'exhaustive': False})
     if not res.violations and not info['ok']:
@@ -224,3 +238,25 @@ def replay(path):
 def warm():
     A.harness()
     A.driver()
+
+
+META = {
+    'property_id': PID,
+    'level_claimed': {
+        'category': 'proof',
+        'text': 'Coq theorems (Properties/C03.v), all inputs: (1) the exact segment-vs-convex-polygon decider (Cyrus-Beck over Q) is correct, hence '
+                'the route checker route_ok decides "at least two points, starts/ends at the attachments, no point of any segment strictly inside '
+                'a shape not containing an endpoint"; (2) the per-shape loop of EdgeInf::firstBlocker / Router::newBlockingShape, as a fold of the '
+                'cpp2v-regenerated segmentShapeIntersect, equals "some edge properly crossed or two endpoint touches", is order independent, is '
+                'complete on non-degenerate chords (partial) and is REFUTED on degenerate chords (square (0,0)-(10,10), segment (-5,-5)-(15,15); '
+                'known finding F-b, replayed on the real router every run); (3) the reference router only returns chains of visible segments, '
+                'so its routes pass route_ok. Tie: translator for the predicates + the extracted route_ok run on every real displayRoute of a '
+                'generic and a degenerate scene stream (V: validation and search, not proof of the implementation).',
+        'design_ref': 'DESIGN.md 5.3'},
+    'level_note': 'partial + finding. Trusted: Coq kernel; cpp2v.py + clang AST; exact-rational model of binary64; extraction (ExtrOcamlBasic) and the '
+                  'OCaml/C++ drivers. Not modelled: Lee\'s rotational sweep (visibility.cpp), the orthogonal sweep and nudging - seen only through '
+                  'route validity on generated scenes. Not proved: that "no edge of a convex polygon is properly crossed by a segment through its '
+                  'interior" means the segment meets the boundary only at vertices/own endpoints (the classifier degenerate_chord uses the former). '
+                  'Orthogonal mode treats shapes as bounding boxes, so endpoints are generated outside the boxes there.',
+    'technique': 'Coq proof over cpp2v-regenerated Gallina + verified route checker run on the implementation\'s routes',
+}
